@@ -107,3 +107,105 @@ M.contract('xtuml.tools.OrderedSet.pop', [('self', OSET), ('last', BOOL, 'True')
                     'ownership': 'foreign_cells_untouched(self)'},
            raises=[Raises('KeyError', when='len(self.view) == 0')],
            modifies=REP)
+
+# ---- construction
+M.contract('xtuml.tools.OrderedSet.__init__@none', [('self', OSET), ('iterable', NONE, 'None')], returns=NONE,
+           requires={'fresh-object': 'allocated(self)'},
+           ensures={'wf': 'wf(self)', 'empty': 'len(self.view) == 0', 'ownership': 'foreign_cells_untouched(self)'},
+           modifies=['self.end', 'self.map', 'self.view', 'self.nodes', 'self.idx', 'Cell.[0]', 'Cell.[1]', 'Cell.[2]', 'Cell.owner'],
+           ghost={'list_literal_class': 'Cell',
+                  'exit': [('self.view', '[]'), ('self.nodes', '[]'), ('self.end.owner', 'self')]})
+
+M.contract('xtuml.tools.OrderedSet.__init__@seq', [('self', OSET), ('iterable', SeqT(KEY))], returns=NONE,
+           requires={'fresh-object': 'allocated(self)', 'elements': 'all(x is not None for x in iterable)'},
+           ensures={'wf': 'wf(self)',
+                    'all-arrivals-present': 'all(x in self.view for x in iterable)',
+                    'nothing-else': 'all(x in iterable for x in self.view)',
+                    'ownership': 'foreign_cells_untouched(self)'},
+           modifies=['self.end', 'self.map', 'self.view', 'self.nodes', 'self.idx', 'Cell.[0]', 'Cell.[1]', 'Cell.[2]', 'Cell.owner'],
+           ghost={'list_literal_class': 'Cell',
+                  'before_call': {'__ior__': [('self.view', '[]'), ('self.nodes', '[]'), ('self.end.owner', 'self')]}})
+
+# ---- iteration
+M.contract('xtuml.tools.OrderedSet.__iter__', [('self', OSET)], kind='generator', yields=KEY,
+           requires={'wf': 'wf(self)'},
+           ensures={'yields-view-in-order': 'result == self.view'}, modifies=[],
+           loops={0: Loop(inv={'prefix-yielded': 'len(_yielded) <= len(self.view) and all(_yielded[j] is self.view[j] for j in range(0, len(_yielded)))',
+                               'cursor': 'curr is (self.nodes[len(_yielded)] if len(_yielded) < len(self.view) else self.end)',
+                               'end': 'end is self.end'},
+                          decreases='len(self.view) - len(_yielded)')})
+M.contract('xtuml.tools.OrderedSet.__reversed__', [('self', OSET)], kind='generator', yields=KEY,
+           requires={'wf': 'wf(self)'},
+           ensures={'yields-view-reversed': 'len(result) == len(self.view) and all(result[j] is self.view[len(self.view) - 1 - j] for j in range(0, len(result)))'},
+           modifies=[],
+           loops={0: Loop(inv={'suffix-yielded': 'len(_yielded) <= len(self.view) and all(_yielded[j] is self.view[len(self.view) - 1 - j] for j in range(0, len(_yielded)))',
+                               'cursor': 'curr is (self.nodes[len(self.view) - 1 - len(_yielded)] if len(_yielded) < len(self.view) else self.end)',
+                               'end': 'end is self.end'},
+                          decreases='len(self.view) - len(_yielded)')})
+
+# ---- comparison, ends, removal, in-place union
+M.contract('xtuml.tools.OrderedSet.__eq__@OrderedSet', [('self', OSET), ('other', OSET)], returns=BOOL,
+           requires={'wf': 'wf(self) and other is not None and wf(other)'},
+           ensures={'same-elements-same-order': 'result == (self.view == other.view)'}, modifies=[])
+M.contract('xtuml.meta.QuerySet.first', [('self', QSET)], returns=KEY, kind='property',
+           requires={'wf': 'wf(self)'},
+           ensures={'first-or-none': 'result is (self.view[0] if len(self.view) > 0 else None)'}, modifies=[])
+M.contract('xtuml.meta.QuerySet.last', [('self', QSET)], returns=KEY, kind='property',
+           requires={'wf': 'wf(self)'},
+           ensures={'last-or-none': 'result is (self.view[len(self.view) - 1] if len(self.view) > 0 else None)'}, modifies=[])
+M.contract('_collections_abc.MutableSet.remove', [('self', OSET), ('value', KEY)], returns=NONE,
+           requires={'wf': 'wf(self)'},
+           ensures={'wf': 'wf(self)', 'view': 'self.view == seq_without(old(self.view), old(self.idx[value]))',
+                    'ownership': 'foreign_cells_untouched(self)'},
+           raises=[Raises('KeyError', when='value not in self.view')],
+           modifies=REP)
+M.contract('_collections_abc.MutableSet.__ior__@seq', [('self', OSET), ('it', SeqT(KEY))], returns=OSET,
+           requires={'wf': 'wf(self)', 'elements': 'all(x is not None for x in it)'},
+           ensures={'wf': 'wf(self)', 'returns-self': 'result is self',
+                    'old-elements-keep-their-places': 'len(self.view) >= len(old(self.view)) and all(self.view[j] is old(self.view)[j] for j in range(0, len(old(self.view))))',
+                    'all-arrivals-present': 'all(x in self.view for x in it)',
+                    'nothing-else': 'all(x in old(self.view) or x in it for x in self.view)',
+                    'ownership': 'foreign_cells_untouched(self)'},
+           modifies=REP,
+           loops={0: Loop(inv={'wf': 'wf(self)',
+                               'old-elements-keep-their-places': 'len(self.view) >= len(old(self.view)) and all(self.view[j] is old(self.view)[j] for j in range(0, len(old(self.view))))',
+                               'arrivals-so-far-present': 'all(_seq[j] in self.view for j in range(0, _i))',
+                               'nothing-else': 'all(x in old(self.view) or any(_seq[j] is x for j in range(0, _i)) for x in self.view)',
+                               'ownership': 'foreign_cells_untouched(self)', 'iterates': '_seq == it'})})
+
+# ---- the property's sentences as lemmas over the contracts above (client programs, checked against contracts only)
+M.lemma('C17.lemma.insertion_order_and_set_semantics', [('a', KEY), ('b', KEY), ('c', KEY)],
+        requires={'distinct': 'a is not None and b is not None and c is not None and a is not b and b is not c and a is not c'},
+        source='''
+def lemma(a, b, c):
+    s = OrderedSet()
+    s.add(a)
+    s.add(b)
+    s.add(a)
+    assert s.view == [a, b]
+    assert len(s) == 2 and a in s and b in s and c not in s
+    s.add(c)
+    s.discard(b)
+    assert s.view == [a, c]
+    s.add(b)
+    assert s.view == [a, c, b]
+    x = s.pop()
+    assert x is b and s.view == [a, c]
+    y = s.pop(False)
+    assert y is a and s.view == [c]
+    s.discard(b)
+    assert s.view == [c]
+''')
+M.lemma('C17.lemma.two_sets_do_not_interfere', [('a', KEY), ('b', KEY)],
+        requires={'distinct': 'a is not None and b is not None and a is not b'},
+        source='''
+def lemma(a, b):
+    s = OrderedSet()
+    t = OrderedSet()
+    s.add(a)
+    t.add(b)
+    s.add(b)
+    t.discard(b)
+    assert s.view == [a, b]
+    assert len(t.view) == 0
+''')
